@@ -2,10 +2,14 @@ import Mathlib.Tactic.Ring
 import Mathlib.Tactic.FieldSimp
 import Mathlib.Tactic.LinearCombination
 import Mathlib.Tactic.Linarith
+import Mathlib.Tactic.Positivity
+import Mathlib.Tactic.FinCases
+import Mathlib.Tactic.SplitIfs
+import Mathlib.Tactic.NormNum
 import Mathlib.Algebra.Field.Basic
 import Mathlib.Algebra.CharZero.Defs
 import Mathlib.Algebra.Order.Field.Basic
-import ScenicModel.Model.Frames
+import ScenicModel.Model.FramesCore
 /-!
 Helper lemmas for the frame model (C07): matrix / quaternion algebra over an arbitrary field.
 -/
@@ -14,16 +18,16 @@ namespace Scenic.Frames
 /-- unfold the vector / matrix / quaternion / angle primitives down to field arithmetic -/
 macro "unfold_frames" : tactic => `(tactic| simp only [Vec3.add, Vec3.sub, Vec3.neg, Vec3.smul, Vec3.dot,
   Vec3.normSq, Vec3.zero, Vec3.ex, Vec3.ey, Vec3.ez, Vec3.ofTriple,
-  Mat3.col0, Mat3.col1, Mat3.col2, Mat3.one, Mat3.mulVec, Mat3.transpose, Mat3.mul, Mat3.det,
-  Quat.mul, Quat.conj, Quat.normSq, Quat.toMat, Quat.one, Quat.aboutX, Quat.aboutY, Quat.aboutZ,
+  Mat3.col0, Mat3.col1, Mat3.col2, Mat3.one, Mat3.mulVec, Mat3.transpose, Mat3.mul, Mat3.det, Mat3.sdiv, Mat3.scale,
+  Quat.mul, Quat.conj, Quat.normSq, Quat.rawMat, Quat.one, Quat.aboutX, Quat.aboutY, Quat.aboutZ,
   Ang.zero, Ang.ofHalf, Ang.add, Ang.neg, Ang.sub, Ang.quarter, rotZ, rotX, rotY, euler, rotatedBy,
   offsetLocally, relativePosition, localCoords, distSq])
 
 /-- the same at a hypothesis -/
 macro "unfold_frames_at" h:ident : tactic => `(tactic| simp only [Vec3.add, Vec3.sub, Vec3.neg, Vec3.smul, Vec3.dot,
   Vec3.normSq, Vec3.zero, Vec3.ex, Vec3.ey, Vec3.ez, Vec3.ofTriple,
-  Mat3.col0, Mat3.col1, Mat3.col2, Mat3.one, Mat3.mulVec, Mat3.transpose, Mat3.mul, Mat3.det,
-  Quat.mul, Quat.conj, Quat.normSq, Quat.toMat, Quat.one, Quat.aboutX, Quat.aboutY, Quat.aboutZ,
+  Mat3.col0, Mat3.col1, Mat3.col2, Mat3.one, Mat3.mulVec, Mat3.transpose, Mat3.mul, Mat3.det, Mat3.sdiv, Mat3.scale,
+  Quat.mul, Quat.conj, Quat.normSq, Quat.rawMat, Quat.one, Quat.aboutX, Quat.aboutY, Quat.aboutZ,
   Ang.zero, Ang.ofHalf, Ang.add, Ang.neg, Ang.sub, Ang.quarter, rotZ, rotX, rotY, euler, rotatedBy,
   offsetLocally, relativePosition, localCoords, distSq] at $h:ident)
 
@@ -58,6 +62,18 @@ theorem det_transpose (a : Mat3 α) : a.transpose.det = a.det := by unfold_frame
 theorem det_one : (one : Mat3 α).det = 1 := by unfold_frames; ring
 theorem dot_mulVec (a : Mat3 α) (v w : Vec3 α) : (a.mulVec v).dot w = v.dot (a.transpose.mulVec w) := by
   unfold_frames; ring
+
+theorem sdiv_mul_sdiv (a b : Mat3 α) (k l : α) : (a.sdiv k).mul (b.sdiv l) = (a.mul b).sdiv (k * l) := by
+  ext <;> unfold_frames <;> simp only [div_mul_div_comm, ← add_div]
+theorem sdiv_transpose (a : Mat3 α) (k : α) : (a.sdiv k).transpose = a.transpose.sdiv k := by
+  ext <;> unfold_frames
+theorem scale_one_sdiv (k : α) (hk : k ≠ 0) : (scale k one).sdiv k = one := by
+  ext <;> unfold_frames <;> simp [hk]
+theorem det_sdiv (a : Mat3 α) (k : α) : (a.sdiv k).det = a.det / (k * k * k) := by
+  unfold_frames
+  by_cases hk : k = 0
+  · subst hk; simp
+  · field_simp
 
 theorem IsRot.one : IsRot (one : Mat3 α) :=
   ⟨by rw [transpose_one, one_mul'], by rw [transpose_one, one_mul'], det_one⟩
@@ -120,7 +136,8 @@ theorem Ang.sub_add_cancel' {p q : Ang α} (hq : q.Unit) : (p.sub q).add q = p :
   · linear_combination p.s * hq
 
 theorem Ang.ofHalf_unit (a b : α) (h : a * a + b * b ≠ 0) : (Ang.ofHalf a b).Unit := by
-  unfold Ang.Unit; unfold_frames; field_simp; ring
+  unfold Ang.Unit; unfold_frames
+  rw [div_mul_div_comm, div_mul_div_comm, ← add_div, div_eq_one_iff_eq (mul_ne_zero h h)]; ring
 
 theorem isRot_rotZ {a : Ang α} (h : a.Unit) : (rotZ a).IsRot := by
   unfold Ang.Unit at h
@@ -156,26 +173,34 @@ theorem mul_assoc' (a b c : Quat α) : (a.mul b).mul c = a.mul (b.mul c) := by f
 theorem normSq_mul (a b : Quat α) : (a.mul b).normSq = a.normSq * b.normSq := by unfold_frames; ring
 theorem normSq_conj (a : Quat α) : a.conj.normSq = a.normSq := by unfold_frames; ring
 
-theorem toMat_mul (a b : Quat α) (ha : a.normSq ≠ 0) (hb : b.normSq ≠ 0) :
-    (a.mul b).toMat = a.toMat.mul b.toMat := by
-  have hab : (a.mul b).normSq ≠ 0 := by rw [normSq_mul]; exact mul_ne_zero ha hb
-  ext <;> simp only [Quat.toMat, Mat3.mul, Vec3.dot, Mat3.col0, Mat3.col1, Mat3.col2] <;>
-    rw [div_eq_iff hab] <;> rw [normSq_mul] <;> field_simp <;> simp only [Quat.mul, Quat.normSq] <;> ring
+theorem rawMat_mul (a b : Quat α) : (a.mul b).rawMat = a.rawMat.mul b.rawMat := by frames_ring
+theorem rawMat_conj (a : Quat α) : a.conj.rawMat = a.rawMat.transpose := by frames_ring
+theorem rawMat_mul_transpose (a : Quat α) :
+    a.rawMat.mul a.rawMat.transpose = Mat3.scale (a.normSq * a.normSq) Mat3.one := by frames_ring
+theorem rawMat_transpose_mul (a : Quat α) :
+    a.rawMat.transpose.mul a.rawMat = Mat3.scale (a.normSq * a.normSq) Mat3.one := by frames_ring
+theorem det_rawMat (a : Quat α) : a.rawMat.det = a.normSq * a.normSq * a.normSq := by unfold_frames; ring
+
+/-- the quaternion product is the matrix product (no unit-norm hypothesis needed) -/
+theorem toMat_mul (a b : Quat α) : (a.mul b).toMat = a.toMat.mul b.toMat := by
+  simp only [toMat, rawMat_mul, normSq_mul, Mat3.sdiv_mul_sdiv]
 
 theorem toMat_conj (a : Quat α) : a.conj.toMat = a.toMat.transpose := by
-  ext <;> simp only [Quat.toMat, Mat3.transpose, Mat3.col0, Mat3.col1, Mat3.col2, normSq_conj] <;>
-    simp only [Quat.conj] <;> ring
+  simp only [toMat, rawMat_conj, normSq_conj, Mat3.sdiv_transpose]
 
 theorem toMat_isRot (a : Quat α) (ha : a.normSq ≠ 0) : a.toMat.IsRot := by
-  have hn : a.w * a.w + a.x * a.x + a.y * a.y + a.z * a.z ≠ 0 := ha
   refine ⟨?_, ?_, ?_⟩
-  · ext <;> unfold_frames <;> field_simp <;> ring
-  · ext <;> unfold_frames <;> field_simp <;> ring
-  · unfold_frames; field_simp; ring
+  · simp only [toMat, Mat3.sdiv_transpose, Mat3.sdiv_mul_sdiv, rawMat_mul_transpose]
+    exact Mat3.scale_one_sdiv _ (mul_ne_zero ha ha)
+  · simp only [toMat, Mat3.sdiv_transpose, Mat3.sdiv_mul_sdiv, rawMat_transpose_mul]
+    exact Mat3.scale_one_sdiv _ (mul_ne_zero ha ha)
+  · simp only [toMat, Mat3.det_sdiv, det_rawMat]; exact div_self (mul_ne_zero (mul_ne_zero ha ha) ha)
 
 /-- a non-zero real scalar acts as the identity rotation -/
 theorem toMat_scalar (k : α) (hk : k ≠ 0) : (⟨k, 0, 0, 0⟩ : Quat α).toMat = Mat3.one := by
-  ext <;> unfold_frames <;> field_simp <;> ring
+  have : (⟨k, 0, 0, 0⟩ : Quat α).rawMat = Mat3.scale (k * k) Mat3.one := by frames_ring
+  have hn : (⟨k, 0, 0, 0⟩ : Quat α).normSq = k * k := by unfold_frames; ring
+  rw [toMat, this, hn]; exact Mat3.scale_one_sdiv _ (mul_ne_zero hk hk)
 
 theorem mul_conj (a : Quat α) : a.mul a.conj = ⟨a.normSq, 0, 0, 0⟩ := by frames_ring
 theorem conj_mul (a : Quat α) : a.conj.mul a = ⟨a.normSq, 0, 0, 0⟩ := by frames_ring
